@@ -37,7 +37,7 @@ import (
 
 type algStats struct {
 	Ops, Ceremonies, Batches, SignaturesChecked, SharesChecked, SubsetsChecked int
-	C07Schedules, C07Races                                                   int
+	C07Schedules, C07Races, C11Scenarios                                     int
 	C07Exhaustive                                                            string
 	Configs                                                                  []string
 	OutcomeHist                                                              map[string]int
@@ -475,6 +475,7 @@ func runAlgDiff(outDir string, seed int64, tier string) {
 		c.close()
 		os.RemoveAll(dir)
 	}
+	a.c11Run(outDir, tier)
 	a.ops.Flush()
 	a.obs.Flush()
 	fo.Close()
